@@ -218,6 +218,14 @@ fn e2e(scn: &Value) -> Value {
     if let Some(k) = scn["timers"]["keepalive"].as_u64() { std::env::set_var("OHKAMI_KEEPALIVE_TIMEOUT", k.to_string()) }
     if let Some(k) = scn["timers"]["websocket"].as_u64() { std::env::set_var("OHKAMI_WEBSOCKET_TIMEOUT", k.to_string()) }
     let grace_ms = scn["timers"]["grace_ms"].as_u64().unwrap_or(100);
+    // what the process inherited: the default disposition of SIGINT, SIGINT ignored (what POSIX prescribes for a background job of a
+    // non-interactive shell: `./server &` in a script), or a handler somebody installed before `howl` -- the interrupt is the server's business in all three
+    extern "C" fn earlier_handler(_: libc::c_int) {}
+    match scn["id"].as_u64().unwrap_or(0) % 3 {
+        1 => unsafe { libc::signal(libc::SIGINT, libc::SIG_IGN); },
+        2 => unsafe { libc::signal(libc::SIGINT, earlier_handler as extern "C" fn(libc::c_int) as libc::sighandler_t); },
+        _ => {}
+    }
     let rt = tokio::runtime::Builder::new_multi_thread().worker_threads(2).enable_all().build().unwrap();
     let out = rt.block_on(async move {
         let port = { let l = std::net::TcpListener::bind("127.0.0.1:0").unwrap(); l.local_addr().unwrap().port() };
